@@ -474,13 +474,16 @@ class CliLocationOrder(Stream):
     def generate(self, rng):
         def pick(kind, k):
             return [rng.choice(self.LOCS[kind]) for _ in range(k)]
-        cmd = {"find": pick("find", rng.randint(0, 3)), "index": pick("index", rng.choice([0, 0, 1])), "extra": pick("extra", rng.randint(0, 2))}
+        cmd = {"find": pick("find", rng.randint(0, 3)), "index": pick("index", rng.choice([0, 0, 1])), "extra": pick("extra", rng.randint(0, 2)),
+               # source trees named on the command line; requirements files may add local projects (`-e dir`), which
+               # join the source trees - after the ones of the command line
+               "source": rng.sample(["treeA", "treeB"], rng.choice([0, 0, 1, 2]))}
         files = []
         for _ in range(rng.choice([1, 1, 2])):
             lines = []
             for _ in range(rng.randint(0, 4)):
-                kind = rng.choice(["find", "find", "extra", "index"])
-                lines.append([kind, rng.choice(self.LOCS[kind])])
+                kind = rng.choice(["find", "find", "extra", "index", "editable"])
+                lines.append([kind, rng.choice(self.LOCS[kind]) if kind != "editable" else rng.choice(["ed0", "ed1"])])
             files.append(lines)
         return {"cmd": cmd, "files": files}
 
@@ -492,23 +495,32 @@ class CliLocationOrder(Stream):
         d = os.path.join(self.tmp, digest(case))
         os.makedirs(d, exist_ok=True)
         args = []
+        for ed in ("ed0", "ed1"):
+            B.write_source_project(os.path.join(d, ed), ed, "0.1")
         for i, lines in enumerate(case["files"]):
             fn = os.path.join(d, "r%d.txt" % i)
             with open(fn, "w") as f:
                 for kind, v in lines:
-                    f.write("%s %s\n" % (self.FLAG[kind], v))
+                    if kind == "editable":
+                        f.write("-e %s\n" % os.path.join(d, v))
+                    else:
+                        f.write("%s %s\n" % (self.FLAG[kind], v))
                 f.write("foo\n")
             args.append(fn)
         for kind in ("find", "index", "extra"):
             for v in case["cmd"][kind]:
                 args += [self.FLAG[kind], v]
+        for v in case["cmd"].get("source", []):
+            os.makedirs(os.path.join(d, v), exist_ok=True)
+            args += ["--source", os.path.join(d, v)]
         captured = {}
 
         class Stop(Exception):
             pass
 
         def fake_build_repo(solutions, upgrade_packages, sources, excluded_sources, find_links, index_urls, wheeldir, extra_index_urls=None, **kw):
-            captured.update(index=list(index_urls), extra=list(extra_index_urls or []), find=list(find_links))
+            captured.update(index=list(index_urls), extra=list(extra_index_urls or []), find=list(find_links),
+                            source=[os.path.relpath(x, d) for x in sources])
             raise Stop()
 
         orig = C.build_repo
@@ -530,7 +542,7 @@ class CliLocationOrder(Stream):
         return out
 
     def _file_lists(self, case):
-        out = {"find": [], "index": [], "extra": []}
+        out = {"find": [], "index": [], "extra": [], "editable": []}
         for lines in case["files"]:
             for kind, v in lines:
                 out[kind].append(v)
@@ -569,6 +581,9 @@ class CliLocationOrder(Stream):
             return [("C04/cli-rejects-locations", r)]
         fll = self._file_lists(case)
         fails = []
+        want_src = list(case["cmd"].get("source", [])) + fll["editable"]
+        if r.get("source") != want_src:
+            fails.append(("C04/source-trees-not-the-listed-ones", {"listed": want_src, "handed-to-build_repo": r.get("source")}))
         for k in ("find", "index", "extra"):
             want = list(dict.fromkeys(case["cmd"][k] + fll[k]))
             got = list(dict.fromkeys(r[k]))
